@@ -1,339 +1,483 @@
-"""Hunt for violations of C01 (exact &, |, ~ on version specifiers) on the library as it is.
+"""Hunt for violations of C01 (&, |, ~ on version specifiers are exact set operations)
+on the UNMODIFIED library.
 
-Run: cd /tmp/wt/C01h && PYTHONPATH=/tmp/wt/C01h/src /venv/bin/python hunt_C01.py [seed]
+Run as (with patch.diff reversed, i.e. on the pristine tree):
+    cd /tmp/wt/C01i && PYTHONPATH=/tmp/wt/C01i/src /venv/bin/python hunt_C01.py
 
-Membership is read structurally from the bounds (min/max/include_*) of the result and of
-the operands, so the oracle is the direct evaluation of both sides of
-    v in (a&b) <=> v in a and v in b,  v in (a|b) <=> v in a or v in b,  v in ~a <=> not v in a
-for probe versions v placed on and around every bound.  In addition every result is checked
-for well-formedness (ranges sorted, disjoint, non adjacent, not inverted), and parsed
-operands are compared with packaging on final releases.
-
-Every NEW violation is printed; the summary says how many cases were run per area.
+Every check compares what the library returns with an independent oracle:
+  * structural: membership read from min/max/include_* of the ranges; the result
+    of an operator must admit exactly the boolean combination of its operands;
+  * packaging: for specifiers/probes made of plain final releases the operands'
+    membership is also decided by packaging.specifiers.SpecifierSet;
+  * shape: results must be canonical (sorted, disjoint, non adjacent, no empty
+    piece, >= 2 ranges in a union) - a broken shape would break later operators;
+  * laws on three / four operands (De Morgan, distributivity, absorption,
+    double complement, commutativity) judged by membership AND by equality of
+    the canonical results;
+  * no exception may escape from &, |, ~ on non-`===` specifiers.
+Each NEW violation is printed with input, library answer and oracle answer.
 """
+
 from __future__ import annotations
 
-import collections
 import itertools
 import random
 import sys
+import time
+import traceback
 
 from packaging.specifiers import SpecifierSet
 from packaging.version import Version
 
 from dep_logic.specifiers import (
     AnySpecifier,
+    BaseSpecifier,
     EmptySpecifier,
-    InvalidSpecifier,
     RangeSpecifier,
     UnionSpecifier,
+    from_specifierset,
     parse_version_specifier,
 )
 
 VIOLATIONS: list[str] = []
-COUNTS: collections.Counter[str] = collections.Counter()
+COUNTS: dict[str, int] = {}
+
+
+def count(area: str, n: int = 1) -> None:
+    COUNTS[area] = COUNTS.get(area, 0) + n
 
 
 def report(area: str, msg: str) -> None:
+    if len(VIOLATIONS) < 40:
+        print(f"VIOLATION [{area}] {msg}")
     VIOLATIONS.append(f"[{area}] {msg}")
-    if len(VIOLATIONS) <= 40:
-        print("VIOLATION", VIOLATIONS[-1])
 
 
-# ---------------------------------------------------------------- structural oracle
-def member(s, v: Version) -> bool:
+# ---------------------------------------------------------------- oracle
+def ranges_of(s: BaseSpecifier) -> list[RangeSpecifier]:
     if isinstance(s, EmptySpecifier):
-        return False
+        return []
     if isinstance(s, AnySpecifier):
-        return True
+        return [RangeSpecifier()]
     if isinstance(s, RangeSpecifier):
-        if s.min is not None and not (s.min < v or (s.min == v and s.include_min)):
-            return False
-        if s.max is not None and not (v < s.max or (s.max == v and s.include_max)):
-            return False
-        return True
+        return [s]
     if isinstance(s, UnionSpecifier):
-        return any(member(r, v) for r in s.ranges)
-    raise TypeError(type(s))
+        return list(s.ranges)
+    raise TypeError(f"unexpected type {type(s).__name__}")
 
 
-def bounds(s) -> list[Version]:
-    if isinstance(s, RangeSpecifier):
-        return [x for x in (s.min, s.max) if x is not None]
-    if isinstance(s, UnionSpecifier):
-        return [x for r in s.ranges for x in bounds(r)]
-    return []
+def in_range(r: RangeSpecifier, v: Version) -> bool:
+    if r.min is not None and (v < r.min or (v == r.min and not r.include_min)):
+        return False
+    if r.max is not None and (v > r.max or (v == r.max and not r.include_max)):
+        return False
+    return True
 
 
-def wellformed(s) -> str | None:
-    if isinstance(s, RangeSpecifier) and s.min is not None and s.max is not None:
-        if s.min > s.max:
-            return "inverted range"
-        if s.min == s.max and not (s.include_min and s.include_max):
-            return "degenerate empty range"
-    if isinstance(s, UnionSpecifier):
-        if len(s.ranges) < 2:
-            return "union with <2 ranges"
-        for r in s.ranges:
-            if (w := wellformed(r)) is not None:
-                return w
-            if r.is_any():
-                return "unbounded range inside union"
-        for a, b in zip(s.ranges, s.ranges[1:]):
-            if a.max is None or b.min is None:
-                return "unbounded inner bound"
-            if not (
-                a.max < b.min
-                or (a.max == b.min and not a.include_max and not b.include_min)
-            ):
-                return f"not sorted/disjoint/non-adjacent: {a} | {b}"
-    return None
+def member(s: BaseSpecifier, v: Version) -> bool:
+    return any(in_range(r, v) for r in ranges_of(s))
 
 
-def probes(*specs) -> set[Version]:
-    bs = {b for s in specs for b in bounds(s)}
-    out = set(bs)
-    for b in bs:
-        base = b.base_version
-        for suf in ("", ".dev0", "a0", ".post0", ".post0.dev0", ".0.1", ".1"):
-            out.add(Version(base + suf))
-        if b.pre:
-            out.add(Version(f"{base}{b.pre[0]}{b.pre[1] + 1}"))
-            out.add(Version(f"{base}{b.pre[0]}{b.pre[1]}.post0"))
-            out.add(Version(f"{base}{b.pre[0]}{b.pre[1]}.dev0"))
-        if b.post is not None:
-            out.add(Version(str(b).split(".dev")[0] + ".dev0"))
-            out.add(Version(f"{base}.post{b.post + 1}"))
-        if b.dev is not None:
-            out.add(Version(str(b).rsplit(".dev", 1)[0] + f".dev{b.dev + 1}"))
-    out.add(Version("0.dev0"))
-    out.add(Version("99!99"))
+def bounds(s: BaseSpecifier) -> list[Version]:
+    out = []
+    for r in ranges_of(s):
+        out += [b for b in (r.min, r.max) if b is not None]
     return out
 
 
-def check(area: str, a, ta: str, b, tb: str) -> None:
-    COUNTS[area] += 1
-    P = probes(a, b)
-    for name, f, oracle in (
-        ("&", lambda: a & b, lambda x, y: x and y),
-        ("|", lambda: a | b, lambda x, y: x or y),
-        ("~", lambda: ~a, lambda x, y: not x),
+def between(a: Version, b: Version) -> Version | None:
+    rel = ".".join(map(str, a.release))
+    relb = ".".join(map(str, b.release))
+    for text in (
+        f"{a.epoch}!{rel}.0.1",
+        f"{a.epoch}!{rel}.1",
+        f"{a.epoch}!{rel}.post99999",
+        f"{a.epoch}!{rel}",
+        f"{b.epoch}!{relb}.dev0",
+        f"{b.epoch}!{relb}a0",
+        f"{b.epoch}!0",
     ):
-        try:
-            r = f()
-        except Exception as e:  # noqa: BLE001
-            report(area, f"{name}: a={ta!r} b={tb!r} raised {type(e).__name__}: {e}")
-            continue
-        if (w := wellformed(r)) is not None:
-            report(area, f"{name}: a={ta!r} b={tb!r} ill-formed result {r!r}: {w}")
-        for v in P | probes(r):
-            got, exp = member(r, v), oracle(member(a, v), member(b, v))
-            if got != exp:
-                report(
-                    area,
-                    f"{name}: a={ta!r} b={tb!r} -> {r!r}; v={v}: library {got}, "
-                    f"direct evaluation of the operands {exp}",
-                )
-                break
+        c = Version(text)
+        if a < c < b:
+            return c
+    return None
+
+
+def probes(bs: list[Version]) -> list[Version]:
+    bs = sorted(set(bs))
+    pts = list(bs) + [Version("0.dev0"), Version("99!99")]
+    for b in bs:
+        pts.append(Version(f"{b.epoch}!{'.'.join(map(str, b.release))}.99"))
+    for a, b in zip(bs, bs[1:]):
+        m = between(a, b)
+        if m is not None:
+            pts.append(m)
+    return pts
+
+
+def canonical_problem(s: BaseSpecifier) -> str | None:
+    rs = ranges_of(s)
+    if isinstance(s, UnionSpecifier) and len(rs) < 2:
+        return "union with fewer than two ranges"
+    for r in rs:
+        if not isinstance(r, RangeSpecifier):
+            return f"non-range member {r!r}"
+        if r.min is not None and r.max is not None:
+            if not (r.min < r.max or (r.min == r.max and r.include_min and r.include_max)):
+                return f"empty piece {r!r}"
+    if isinstance(s, UnionSpecifier) and any(r.is_any() for r in rs):
+        return "universal piece inside a union"
+    for a, b in zip(rs, rs[1:]):
+        if a.max is None or b.min is None:
+            return "unbounded piece in the middle"
+        if not (a.max < b.min or (a.max == b.min and not a.include_max and not b.include_min)):
+            return f"pieces {a!r} and {b!r} overlap, touch or are out of order"
+    return None
+
+
+def same_set(x: BaseSpecifier, y: BaseSpecifier) -> bool:
+    """Equality of canonical forms (the canonical form of a set is unique)."""
+    return ranges_of(x) == ranges_of(y)
 
 
 # ---------------------------------------------------------------- generators
-def rand_version(rng: random.Random) -> str:
-    n = rng.choice([1, 1, 2, 2, 2, 3, 3, 4, 5])
-    s = ".".join(str(rng.choice([0, 0, 1, 1, 2, 3, 10])) for _ in range(n))
-    if rng.random() < 0.15:
-        s = f"{rng.choice([1, 2])}!" + s
-    if rng.random() < 0.12:
-        s += rng.choice(["a", "b", "rc"]) + str(rng.choice([0, 1, 2]))
-    if rng.random() < 0.1:
-        s += ".post" + str(rng.choice([0, 1, 2]))
-    if rng.random() < 0.1:
-        s += ".dev" + str(rng.choice([0, 1, 2]))
-    return s
-
-
-POOLS = [
-    ["1", "1.0", "1.0.0", "1.1", "1.0.1", "2", "2.0", "1.0a1", "1.0.post1", "1.0.dev1",
-     "1!1", "1!1.0", "0"],
-    ["1.2", "1.3", "1.3.0", "1.2.0", "1.2.1", "2.0", "2.0.0", "1.2.post0", "1.3.dev0",
-     "1.3a0", "1!1.2", "1!1.3.0"],
-    ["3.8", "3.9", "3.10", "3.10.0", "3.9.1", "3.9.0", "4", "4.0", "3", "3.0"],
+SMALL = ["0.9", "1", "1.0.1", "1.1", "1.2", "1.2.0", "1.2.3", "2", "2.0.0", "2.1", "3"]
+EDGY = SMALL + [
+    "1.0a1", "1.0b2", "1.0rc1", "1.0.dev3", "1.0.post1", "1.0.post1.dev2", "1.0a1.dev1",
+    "1!0.5", "1!1.0", "1!2.3", "2!0", "1.2.3.4", "1.2.3.4.5", "0", "0.0.1", "10.20.30",
+    "1.10", "1.9", "2.0.post2", "2.0rc3", "2.0a1.post1", "1.0.0.0", "1.2.0.0", "1.2.post0",
+    "1_000.2".replace("_", ""), "01.02", "v1.2", "1.2-1", "1.2.RC1",
 ]
 
 
-def rand_atom(rng: random.Random, pool: list[str] | None) -> str:
-    op = rng.choice(["<", "<=", ">", ">=", "==", "!=", "~=", "==*", "!=*"])
-    while True:
-        v = rng.choice(pool) if pool else rand_version(rng)
-        pv = Version(v)
-        if op in ("==*", "!=*"):
-            if pv.is_prerelease or pv.is_postrelease:
-                continue
-            return op[:2] + v + ".*"
-        if op == "~=" and len(pv.release) < 2:
-            continue
-        return op + v
+def rand_version(rng: random.Random, mode: str) -> str:
+    if mode == "small":
+        return rng.choice(SMALL)
+    if mode == "edgy":
+        return rng.choice(EDGY)
+    v = ".".join(str(rng.randint(0, 30)) for _ in range(rng.randint(1, 5)))
+    if rng.random() < 0.15:
+        v = f"{rng.randint(1, 2)}!" + v
+    if rng.random() < 0.15:
+        v += rng.choice(["a", "b", "rc"]) + str(rng.randint(0, 3))
+    if rng.random() < 0.15:
+        v += ".post" + str(rng.randint(0, 3))
+    if rng.random() < 0.15:
+        v += ".dev" + str(rng.randint(0, 3))
+    return v
 
 
-def rand_spec(rng: random.Random, pool=None, depth=0, maxdepth=3):
+def rand_clause(rng: random.Random, mode: str) -> str:
+    op = rng.choice([">", ">=", "<", "<=", "==", "!=", "~=", "==*", "!=*"])
+    v = rand_version(rng, mode)
+    V = Version(v)
+    if op.endswith("*"):
+        depth = rng.randint(1, len(V.release))
+        base = (f"{V.epoch}!" if V.epoch else "") + ".".join(map(str, V.release[:depth]))
+        return op[:2] + base + ".*"
+    if op == "~=":
+        if len(V.release) < 2:
+            return ">=" + v
+        return "~=" + v
+    return op + v
+
+
+def rand_leaf(rng: random.Random, mode: str) -> tuple[BaseSpecifier, str]:
     r = rng.random()
-    if depth >= maxdepth or r < 0.45:
-        text = ",".join(rand_atom(rng, pool) for _ in range(rng.choice([0, 1, 1, 1, 2, 2, 3])))
+    if r < 0.04:
+        return EmptySpecifier(), "<empty>"
+    if r < 0.07:
+        return AnySpecifier(), "AnySpecifier()"
+    if r < 0.09:
+        return RangeSpecifier(), "RangeSpecifier()"
+    if r < 0.11:
+        return ~EmptySpecifier(), "~<empty>"
+    text = ",".join(rand_clause(rng, mode) for _ in range(rng.choice([1, 1, 1, 2, 2, 3, 4])))
+    if rng.random() < 0.3:
+        for _ in range(rng.choice([1, 1, 2, 3])):
+            text += "||" + ",".join(rand_clause(rng, mode) for _ in range(rng.choice([1, 2])))
         return parse_version_specifier(text), text
-    if r < 0.5:
-        return (
-            (EmptySpecifier(), "<empty>") if rng.random() < 0.5 else (AnySpecifier(), "<any>")
-        )
-    if r < 0.65:
-        a, ta = rand_spec(rng, pool, depth + 1, maxdepth)
-        return ~a, f"~({ta})"
-    a, ta = rand_spec(rng, pool, depth + 1, maxdepth)
-    b, tb = rand_spec(rng, pool, depth + 1, maxdepth)
     if rng.random() < 0.5:
-        return a & b, f"({ta}) & ({tb})"
-    return a | b, f"({ta}) | ({tb})"
+        return from_specifierset(SpecifierSet(text)), f"from_specifierset({text!r})"
+    return parse_version_specifier(text), text
 
 
-def big_union(rng: random.Random):
-    parts = []
-    for _ in range(rng.randint(2, 5)):
-        atoms = [
-            rng.choice(["!=", "!=", "!=", ">=", "<", ">", "<=", "=="]) + rand_version(rng)
-            for _ in range(rng.randint(1, 6))
-        ]
-        parts.append(",".join(atoms))
-    t = "||".join(parts)
-    return parse_version_specifier(t), t
+def build(rng, depth, mode, leaves):
+    if depth == 0 or rng.random() < 0.2:
+        leaf, text = rand_leaf(rng, mode)
+        leaves.append(leaf)
+        return leaf, (lambda v, leaf=leaf: member(leaf, v)), text
+    op = rng.choice("&|~&|")
+    x, fx, tx = build(rng, depth - 1, mode, leaves)
+    if op == "~":
+        return ~x, (lambda v: not fx(v)), f"~({tx})"
+    y, fy, ty = build(rng, depth - 1, mode, leaves)
+    if op == "&":
+        return x & y, (lambda v: fx(v) and fy(v)), f"({tx}) & ({ty})"
+    return x | y, (lambda v: fx(v) or fy(v)), f"({tx}) | ({ty})"
 
 
 # ---------------------------------------------------------------- areas
-def area_random(rng, n):
-    for _ in range(n):
-        a, ta = rand_spec(rng)
-        b, tb = rand_spec(rng)
-        check("random expressions, wide version pool (epoch/pre/post/dev, 1-5 segments)", a, ta, b, tb)
+def area_random_expressions(n_per_mode: int) -> None:
+    for mode in ("small", "edgy", "wide"):
+        rng = random.Random(20260930 + len(mode))
+        for _ in range(n_per_mode):
+            leaves: list[BaseSpecifier] = []
+            count("random expression trees (depth<=4, &,|,~, all leaf kinds)")
+            try:
+                res, f, text = build(rng, rng.randint(1, 4), mode, leaves)
+            except Exception as e:
+                report("exception", f"{type(e).__name__}: {e}\n{traceback.format_exc()}")
+                continue
+            problem = canonical_problem(res)
+            if problem:
+                report("shape", f"{text} -> {res!r}: {problem}")
+            bs = bounds(res)
+            for leaf in leaves:
+                bs += bounds(leaf)
+            for v in probes(bs):
+                if member(res, v) != f(v):
+                    report(
+                        "membership",
+                        f"{text} -> {res!r}: library {'admits' if member(res, v) else 'rejects'} {v}, "
+                        f"direct evaluation of the operands says {'admit' if f(v) else 'reject'}",
+                    )
+                    break
 
 
-def area_tight(rng, n):
-    for _ in range(n):
-        pool = rng.choice(POOLS)
-        a, ta = rand_spec(rng, pool, maxdepth=4)
-        b, tb = rand_spec(rng, pool, maxdepth=4)
-        check("random expressions, tiny pools (coincident bounds, 1 / 1.0 / 1.0.0 spellings)", a, ta, b, tb)
-
-
-def area_big(rng, n):
-    for _ in range(n):
-        a, ta = big_union(rng)
-        b, tb = big_union(rng)
-        if rng.random() < 0.3:
-            a, ta = ~a, f"~({ta})"
-        check("unions of many ranges written with ||", a, ta, b, tb)
-
-
-def area_exhaustive():
-    """all single ranges over a small pool x all single ranges, and all 2-range unions."""
-    pts = ["1", "1.0.0", "1.0a1", "1.0.post1", "2", "1!0"]
-    ranges = [("", parse_version_specifier(""))]
-    for lo in [None, *pts]:
-        for hi in [None, *pts]:
-            for ilo, ihi in itertools.product([">", ">="] if lo else [None], ["<", "<="] if hi else [None]):
-                t = ",".join(x for x in ((ilo + lo) if lo else "", (ihi + hi) if hi else "") if x)
-                if not t:
-                    continue
-                ranges.append((t, parse_version_specifier(t)))
-    for (ta, a), (tb, b) in itertools.product(ranges, ranges):
-        check("exhaustive: every pair of single ranges over 6 bounds", a, ta, b, tb)
-    nonempty = [(t, r) for t, r in ranges if isinstance(r, RangeSpecifier) and not r.is_any()]
-    rng = random.Random(99)
-    unions = []
-    for (ta, a), (tb, b) in itertools.product(nonempty, nonempty):
+def area_exhaustive_small_scope() -> None:
+    pool = ["1", "1.0.0", "1.5", "2", "1!0"]  # 1 == 1.0.0, an epoch on top
+    clauses = [f"{op}{v}" for op in (">", ">=", "<", "<=", "==", "!=") for v in pool]
+    texts = {""} | set(clauses)
+    for a, b in itertools.combinations(clauses, 2):
+        texts.add(f"{a},{b}")
+    specs: dict[tuple, tuple[str, BaseSpecifier]] = {}
+    for t in sorted(texts):
+        s = parse_version_specifier(t)
+        specs.setdefault(tuple(ranges_of(s)), (t, s))
+    # unions of two parsed specifiers
+    base = list(specs.values())
+    rng = random.Random(1)
+    for (ta, a), (tb, b) in rng.sample(list(itertools.combinations(base, 2)), 400):
         u = a | b
-        if isinstance(u, UnionSpecifier):
-            unions.append((f"{ta}||{tb}", u))
-    unions = rng.sample(unions, 250)
-    for (ta, a), (tb, b) in itertools.product(unions, unions):
-        check("exhaustive-ish: pairs of 2-range unions over 6 bounds", a, ta, b, tb)
-    for (ta, a), (tb, b) in itertools.product(unions, nonempty):
-        check("exhaustive-ish: 2-range union x single range (both orders)", a, ta, b, tb)
-        check("exhaustive-ish: 2-range union x single range (both orders)", b, tb, a, ta)
+        specs.setdefault(tuple(ranges_of(u)), (f"{ta}||{tb}", u))
+    items = list(specs.values())
+    items += [("<empty>", EmptySpecifier()), ("AnySpecifier()", AnySpecifier())]
+    pts = probes([Version(v) for v in pool])
+    memb = {t: [member(s, v) for v in pts] for t, s in items}
+    for t, s in items:
+        count("exhaustive small scope (5 bounds incl. 1 == 1.0.0 and an epoch)")
+        inv = ~s
+        if [member(inv, v) for v in pts] != [not m for m in memb[t]] or canonical_problem(inv):
+            report("small-scope ~", f"~({t}) -> {inv!r}")
+    for (ta, a), (tb, b) in itertools.product(items, repeat=2):
+        count("exhaustive small scope (5 bounds incl. 1 == 1.0.0 and an epoch)", 2)
+        i, u = a & b, a | b
+        if [member(i, v) for v in pts] != [x and y for x, y in zip(memb[ta], memb[tb])] or canonical_problem(i):
+            report("small-scope &", f"({ta}) & ({tb}) -> {i!r}")
+        if [member(u, v) for v in pts] != [x or y for x, y in zip(memb[ta], memb[tb])] or canonical_problem(u):
+            report("small-scope |", f"({ta}) | ({tb}) -> {u!r}")
 
 
-def area_roundtrip(rng, n):
-    """parse(str(r)) admits the same versions as r (bounds that are final releases only,
-    so the known `~=` / post-release rendering family is left out)."""
+def area_packaging_oracle(n: int) -> None:
+    """Final releases only: packaging and the interval reading coincide."""
+    rng = random.Random(7)
+    finals = ["0.5", "1", "1.0.1", "1.1", "1.2", "1.2.0", "1.2.3", "2", "2.0.0", "2.1", "3", "1!0.5", "1!1", "1!2.0"]
+    pts = [Version(v) for v in finals] + [Version(v) for v in ("0.1", "1.0.5", "1.1.5", "1.2.1", "1.9", "2.0.5", "2.5", "4", "1!0.1", "1!0.7", "1!1.5", "1!3")]
+
+    def clause():
+        op = rng.choice([">", ">=", "<", "<=", "==", "!=", "~=", "==*", "!=*"])
+        v = rng.choice(finals)
+        V = Version(v)
+        if op.endswith("*"):
+            d = rng.randint(1, len(V.release))
+            return op[:2] + (f"{V.epoch}!" if V.epoch else "") + ".".join(map(str, V.release[:d])) + ".*"
+        if op == "~=" and len(V.release) < 2:
+            op = ">="
+        return op + v
+
+    def text():
+        return "||".join(
+            ",".join(clause() for _ in range(rng.choice([1, 1, 2, 3])))
+            for _ in range(rng.choice([1, 1, 1, 2, 3]))
+        )
+
+    def pk(t, v):
+        return any(SpecifierSet(p).contains(v, prereleases=True) for p in t.split("||"))
+
     for _ in range(n):
-        a, ta = rand_spec(rng)
-        if isinstance(a, AnySpecifier) or any(
-            b.is_prerelease or b.is_postrelease for b in bounds(a)
-        ):
-            continue
-        COUNTS["render and re-parse of results (final-release bounds)"] += 1
-        s = str(a)
-        try:
-            b = parse_version_specifier(s)
-        except Exception as e:  # noqa: BLE001
-            report("roundtrip", f"{ta!r} renders {s!r} which raises {type(e).__name__}: {e}")
-            continue
-        for v in probes(a, b):
-            if member(a, v) != member(b, v):
-                report("roundtrip", f"{ta!r} = {a!r} renders {s!r}, re-parsed differs at v={v}")
-                break
+        count("packaging as oracle (final releases, epochs, wildcards of several depths, ~=)")
+        ta, tb, tc = text(), text(), text()
+        a, b, c = (parse_version_specifier(t) for t in (ta, tb, tc))
+        cases = {
+            f"({ta}) & ({tb})": (a & b, lambda v: pk(ta, v) and pk(tb, v)),
+            f"({ta}) | ({tb})": (a | b, lambda v: pk(ta, v) or pk(tb, v)),
+            f"~({ta})": (~a, lambda v: not pk(ta, v)),
+            f"(({ta}) & ~({tb})) | ({tc})": ((a & ~b) | c, lambda v: (pk(ta, v) and not pk(tb, v)) or pk(tc, v)),
+            f"~(({ta}) | ({tb})) & ({tc})": (~(a | b) & c, lambda v: not (pk(ta, v) or pk(tb, v)) and pk(tc, v)),
+        }
+        for name, (res, f) in cases.items():
+            for v in pts:
+                if member(res, v) != f(v):
+                    report("packaging", f"{name} -> {res!r}: library {member(res, v)} for {v}, packaging {f(v)}")
+                    break
 
 
-GRID = [Version(x) for x in [
-    "0", "0.0.1", "0.1", "0.9", "1", "1.0.1", "1.0.0.1", "1.1", "1.2", "1.2.1", "1.3", "1.9",
-    "2", "2.0.1", "2.1", "3", "10", "1!0", "1!0.1", "1!1", "1!1.0.1", "1!1.1", "1!1.2", "1!2", "2!0"]]
+def area_laws(n: int) -> None:
+    for mode in ("small", "edgy"):
+        rng = random.Random(99 + len(mode))
+        for _ in range(n):
+            count("algebraic laws on 3-4 operands, compared as canonical structures")
+            (a, ta), (b, tb), (c, tc), (d, td) = (rand_leaf(rng, mode) for _ in range(4))
+            laws = {
+                "a&b == b&a": (a & b, b & a),
+                "a|b == b|a": (a | b, b | a),
+                "~~a == a": (~~a, a),
+                "~(a&b) == ~a|~b": (~(a & b), ~a | ~b),
+                "~(a|b) == ~a&~b": (~(a | b), ~a & ~b),
+                "a&(b|c) == a&b|a&c": (a & (b | c), (a & b) | (a & c)),
+                "a|(b&c) == (a|b)&(a|c)": (a | (b & c), (a | b) & (a | c)),
+                "a&(a|b) == a": (a & (a | b), a),
+                "a|(a&b) == a": (a | (a & b), a),
+                "(a&b)&(c&d) == a&(b&(c&d))": ((a & b) & (c & d), a & (b & (c & d))),
+                "(a|b)|(c|d) == ((d|c)|b)|a": ((a | b) | (c | d), ((d | c) | b) | a),
+                "a&~a == empty": (a & ~a, EmptySpecifier()),
+                "a|~a == any": (a | ~a, AnySpecifier()),
+            }
+            for name, (x, y) in laws.items():
+                if not same_set(x, y):
+                    report("law", f"{name} with a={ta!r} b={tb!r} c={tc!r} d={td!r}: {x!r} vs {y!r}")
 
 
-def area_strings(rng, n):
-    """odd but legal spellings: parsed operand vs packaging on final releases, and
-    only InvalidSpecifier may be raised for illegal text."""
-    toks = ["<", "<=", ">", ">=", "==", "!=", "~=", "1", "1.0", "1.0.0", ".*", ",", " ", "||",
-            "<empty>", "1!", "v", "0", ".", "2", "\t", "\n", "01", "1.2", "0.0", "1!0", "*",
-            "a1", ".post1", ".dev0", "-1", "_", "rc", "ſ", "poſt1", "١", "(", ")", "|",
-            "!", "=", "~", "1e5", "０", "²"]
-    for _ in range(n):
-        s = "".join(rng.choice(toks) for _ in range(rng.randint(1, 8)))
-        if "===" in s or "+" in s:
-            continue
-        COUNTS["odd / illegal specifier text (exception type, packaging agreement on final releases)"] += 1
-        try:
-            r = parse_version_specifier(s)
-        except InvalidSpecifier:
-            continue
-        except Exception as e:  # noqa: BLE001
-            report("strings", f"parse_version_specifier({s!r}) raised {type(e).__name__}: {e}")
-            continue
-        if any(b.is_prerelease or b.is_postrelease for b in bounds(r)) or any(
-            x in s for x in ("a1", "post", "dev", "rc", "-1")
-        ):
-            continue
-        for v in GRID:
-            exp = any(
-                False if p.strip() == "<empty>" else SpecifierSet(p).contains(v, prereleases=True)
-                for p in s.split("||")
-            )
-            if member(r, v) != exp:
-                report("strings", f"{s!r} parsed as {r!r}: v={v} library {member(r, v)}, packaging {exp}")
-                break
+def area_dunder_matrix() -> None:
+    kinds = {
+        "Empty": EmptySpecifier(),
+        "Any": AnySpecifier(),
+        "~Empty": ~EmptySpecifier(),
+        "Range()": RangeSpecifier(),
+        "parse('')": parse_version_specifier(""),
+        "range": parse_version_specifier(">=1,<2"),
+        "pin": parse_version_specifier("==1.5"),
+        "union": parse_version_specifier("<1||>=2"),
+        "neq": parse_version_specifier("!=1.5"),
+        "ctor-range": RangeSpecifier(min=Version("1"), max=Version("2.0.0"), include_min=True),
+        "ctor-union": UnionSpecifier((RangeSpecifier(max=Version("1.0")), RangeSpecifier(min=Version("2"), include_min=True))),
+    }
+    pts = probes([Version("1"), Version("1.5"), Version("2")])
+    for (na, a), (nb, b) in itertools.product(kinds.items(), repeat=2):
+        calls = {
+            "a & b": lambda: a & b,
+            "a | b": lambda: a | b,
+            "a.__and__(b)": lambda: a.__and__(b),
+            "b.__rand__(a)": lambda: b.__rand__(a) if hasattr(b, "__rand__") else NotImplemented,
+            "a.__or__(b)": lambda: a.__or__(b),
+            "b.__ror__(a)": lambda: b.__ror__(a) if hasattr(b, "__ror__") else NotImplemented,
+        }
+        for name, call in calls.items():
+            count("operator / reflected-operator matrix over all classes")
+            try:
+                res = call()
+            except Exception as e:
+                report("dunder", f"{name} a={na} b={nb}: {type(e).__name__}: {e}")
+                continue
+            if res is NotImplemented:
+                continue
+            is_and = "and" in name or "&" in name
+            for v in pts:
+                want = (member(a, v) and member(b, v)) if is_and else (member(a, v) or member(b, v))
+                if member(res, v) != want:
+                    report("dunder", f"{name} a={na} b={nb} -> {res!r}: wrong for {v}")
+                    break
+            if canonical_problem(res):
+                report("dunder", f"{name} a={na} b={nb} -> {res!r}: {canonical_problem(res)}")
+    # operands that are not specifiers must give TypeError, nothing else
+    for na, a in kinds.items():
+        for other in ("", ">=1", 1, None, SpecifierSet(">=1"), Version("1")):
+            for op in ("&", "|"):
+                count("operator / reflected-operator matrix over all classes")
+                try:
+                    _ = (a & other) if op == "&" else (a | other)
+                    report("dunder", f"{na} {op} {other!r} did not raise")
+                except TypeError:
+                    pass
+                except Exception as e:
+                    report("dunder", f"{na} {op} {other!r}: {type(e).__name__}: {e}")
+
+
+def area_render_reparse(n: int) -> None:
+    """A result, written out and parsed back, must be the same set
+    (family 3, exclusive post-release upper bound, is skipped)."""
+    for mode in ("small", "edgy", "wide"):
+        rng = random.Random(5 + len(mode))
+        for _ in range(n):
+            leaves: list[BaseSpecifier] = []
+            res, _, text = build(rng, rng.randint(1, 3), mode, leaves)
+            if any(r.max is not None and not r.include_max and r.max.is_postrelease for r in ranges_of(res)):
+                continue
+            count("str(result) parsed back gives the same ranges")
+            try:
+                back = parse_version_specifier(str(res))
+            except Exception as e:
+                report("reparse", f"{text} -> {str(res)!r}: {type(e).__name__}: {e}")
+                continue
+            if not same_set(back, res):
+                report("reparse", f"{text} -> {str(res)!r} parses back as {back!r}, ranges differ")
+
+
+def area_sequences(n: int) -> None:
+    """Long chains on one accumulator, alternating operators (order of earlier operations)."""
+    for mode in ("small", "edgy"):
+        rng = random.Random(31 + len(mode))
+        for _ in range(n):
+            count("long operator chains on one accumulator (20 steps)")
+            acc, text = rand_leaf(rng, mode)
+            f = lambda v, acc=acc: member(acc, v)  # noqa: E731
+            bs = bounds(acc)
+            for _ in range(20):
+                op = rng.choice("&|~")
+                if op == "~":
+                    acc, f, text = ~acc, (lambda v, f=f: not f(v)), f"~({text})"
+                else:
+                    leaf, lt = rand_leaf(rng, mode)
+                    bs += bounds(leaf)
+                    if rng.random() < 0.5:
+                        if op == "&":
+                            acc, f = acc & leaf, (lambda v, f=f, leaf=leaf: f(v) and member(leaf, v))
+                        else:
+                            acc, f = acc | leaf, (lambda v, f=f, leaf=leaf: f(v) or member(leaf, v))
+                        text = f"({text}) {op} ({lt})"
+                    else:
+                        if op == "&":
+                            acc, f = leaf & acc, (lambda v, f=f, leaf=leaf: f(v) and member(leaf, v))
+                        else:
+                            acc, f = leaf | acc, (lambda v, f=f, leaf=leaf: f(v) or member(leaf, v))
+                        text = f"({lt}) {op} ({text})"
+                if canonical_problem(acc):
+                    report("chain shape", f"{text} -> {acc!r}: {canonical_problem(acc)}")
+                    break
+            for v in probes(bs):
+                if member(acc, v) != f(v):
+                    report("chain", f"{text} -> {acc!r}: wrong for {v}")
+                    break
 
 
 def main() -> int:
-    seed = int(sys.argv[1]) if len(sys.argv) > 1 else 0
-    rng = random.Random(seed)
-    area_exhaustive()
-    area_random(rng, 30000)
-    area_tight(rng, 20000)
-    area_big(rng, 8000)
-    area_roundtrip(rng, 15000)
-    area_strings(rng, 150000)
+    t0 = time.time()
+    area_exhaustive_small_scope()
+    area_dunder_matrix()
+    area_random_expressions(60000)
+    area_packaging_oracle(15000)
+    area_laws(15000)
+    area_sequences(4000)
+    area_render_reparse(15000)
     print()
-    for k, v in COUNTS.items():
-        print(f"{v:8d} cases  {k}")
-    print(f"total {sum(COUNTS.values())} cases; NEW violations found: {len(VIOLATIONS)}")
-    if not VIOLATIONS:
-        print("no new violation of C01 found on this tree")
+    for area, n in COUNTS.items():
+        print(f"{n:>8} cases  {area}")
+    print(f"total {sum(COUNTS.values())} cases in {time.time() - t0:.0f}s")
+    if VIOLATIONS:
+        print(f"{len(VIOLATIONS)} violation(s) found")
+        return 1
+    print("no new violation of C01 found")
     return 0
 
 
